@@ -119,6 +119,7 @@ REVERTS = [
  ("R-org-before-switch", "C02", "9630515 63de58d", ".org directly followed by a segment switch is lost"),
  ("R-cli-same-output", "C18", "74ce6b5", "-o X -e X loses the flash image silently"),
  ("R-includepath-panic", "C16", "7410e14", "relative .includepath in a macro body panics"),
+ ("R-cli-same-output-spelling", "C18", "ef3c1cb", "-o out.hex -e ./out.hex loses the flash image silently"),
 ]
 
 def sh(cmd, **kw):
@@ -145,7 +146,7 @@ def main():
     out = open("/verif/selftest/RESULTS.jsonl", "a")
     allprops = [f"C{i:02d}" for i in range(1, 19)]
     def build_harness():
-        b = sh(f"cargo build --release --offline --target-dir {v}/build/harness", cwd=f"{v}/harness", env=env)
+        b = sh(f"cargo build --release --offline --target-dir {v}/build/harness && cargo build --profile plainrelease --offline --target-dir {v}/build/harness", cwd=f"{v}/harness", env=env)
         return b.returncode == 0, b.stderr[-400:]
     def run_check(p):
         sh(f"rm -rf {v}/replays/{p}")
